@@ -92,6 +92,72 @@ theorem gm_ct_deserialize_full (expand : List Nat → Level → List Nat) (ctx :
   rmono
   all_goals exact h6 _ _
 
+theorem gm_lift {α} (x : R α) : RMono (rlift x) := by
+  refine ⟨fun p t v r h => ?_⟩
+  cases x with
+  | error e => simp [rlift] at h
+  | ok a =>
+    simp only [rlift] at h
+    injection h with h; injection h with h1 h2
+    exact .inl ⟨p, by simp [rlift, h1], h2.symm⟩
+
+theorem gm_limited_loop : ∀ (l : List Nat) (value : Nat), RMono (read_u64_limited_loop1 l value) := by
+  intro l
+  induction l with
+  | nil => intro value; unfold read_u64_limited_loop1; exact gm_pure _
+  | cons i rest ih =>
+    intro value
+    unfold read_u64_limited_loop1
+    have := gm_u8
+    rmono
+    all_goals exact ih _
+
+theorem gm_limited (limit : Nat) : RMono (read_u64_limited limit) := by
+  unfold read_u64_limited
+  have := gm_limited_loop
+  rmono
+  all_goals exact gm_limited_loop _ _
+
+attribute [local irreducible] read_u64_limited
+
+theorem gm_chunks (n : Nat) (f : Nat → List Nat → Rd (List Nat)) (hf : ∀ j c, RMono (f j c)) :
+    ∀ (fuel j : Nat) (v : List Nat), RMono (rchunksM n f fuel j v) := by
+  intro fuel
+  induction fuel with
+  | zero => intro j v; unfold rchunksM; exact gm_pure _
+  | succ fuel ih =>
+    intro j v
+    unfold rchunksM
+    split
+    · exact gm_pure _
+    · exact gm_bind _ _ (hf j _) fun c => gm_bind _ _ (ih _ _) fun r => gm_pure _
+
+theorem gm_ct_loop (expand : List Nat → Level → List Nat) (k n : Nat) (limits : List Nat) :
+    ∀ (l : List Nat) (data : List Nat), RMono (ct_deserialize_loop1 expand k n limits l data) := by
+  intro l
+  induction l with
+  | nil => intro data; unfold ct_deserialize_loop1; exact gm_pure _
+  | cons i rest ih =>
+    intro data
+    unfold ct_deserialize_loop1
+    have hl := gm_limited
+    have hlift := fun (x : R Nat) => gm_lift x
+    rmono
+    all_goals first
+      | exact ih _
+      | (apply gm_chunks; intro j c; rmono; all_goals first | exact gm_lift _ | exact gm_limited _)
+
+attribute [local irreducible] ct_deserialize_loop1 rchunksM
+
+/-- the compact `Ciphertext::deserialize` is prefix monotone -/
+theorem gm_ct_deserialize (expand : List Nat → Level → List Nat) (ctx : Ctx) : RMono (ct_deserialize expand ctx) := by
+  unfold ct_deserialize
+  have h1 := gm_pid; have h2 := gm_usize; have h3 := gm_bool; have h4 := gm_f64; have h5 := gm_u64
+  rmono
+  all_goals first
+    | exact gm_ct_loop expand _ _ _ _ _
+    | exact gm_lift _
+
 /-- THE TRUNCATION CLAUSE from monotonicity: a reader that accepts `e` and consumes all of it answers `UnexpectedEof` on every strict
     prefix of `e` -/
 theorem gm_truncation {α} (m : Rd α) (hm : RMono m) (e : Bytes) (v : α) (h : m e = .ok (v, [])) (k : Nat) (hk : k < e.length) :
